@@ -12,6 +12,7 @@
  */
 #define VF_KEEP_SEGV_HANDLER 1
 #include "ep_common.h"
+#include <fcntl.h>
 
 static void harness_setup(void) {
 	if (core_init() != RLC_OK) exit(2);
@@ -208,6 +209,30 @@ static void do_rec(vf_case *c) {
 	free(buf); free(k); free(l);
 }
 
+/* ---------------------------------------------------------------- output parameters documented as "can be NULL" */
+#include <sys/wait.h>
+#include <unistd.h>
+#define L41 "L41-gcd-ext-first-cofactor-null"
+/* null: variant (0 basic, 1 lehme, 2 binar, 3 dig), which (1: e = NULL, 2: d = NULL, 3: both), a, b.
+ * The call runs in a forked child (a null dereference must not take the enumeration down); the parent judges the exit status and, for the
+ * variants that survive, the child itself checks gcd and the cofactor that was requested against the call with both cofactors. */
+static void do_null(vf_case *c) {
+	int var = (int)mpz_get_si(c->v[0]), which = (int)mpz_get_si(c->v[1]); static const char *VN[] = {"bn_gcd_ext_basic", "bn_gcd_ext_lehme", "bn_gcd_ext_binar", "bn_gcd_ext_dig"};
+	fflush(stdout); fflush(stderr); pid_t pid = fork();
+	if (pid == 0) { signal(SIGSEGV, SIG_DFL); signal(SIGBUS, SIG_DFL); signal(SIGABRT, SIG_DFL); signal(SIGALRM, SIG_DFL); alarm(0); int fd = open("/dev/null", O_WRONLY); if (fd >= 0) { dup2(fd, 2); } bn_t a, b, g, d, e, g2, d2, e2; bn_null(a); bn_null(b); bn_null(g); bn_null(d); bn_null(e); bn_null(g2); bn_null(d2); bn_null(e2); int th = 0, bad = 0;
+		RLC_TRY { bn_new(a); bn_new(b); bn_new(g); bn_new(d); bn_new(e); bn_new(g2); bn_new(d2); bn_new(e2); vf_bn_set(a, c->v[2]); vf_bn_set(b, c->v[3]); dig_t bd = b->used ? b->dp[0] : 0;
+			bn_st *pd = (which & 2) ? NULL : d, *pe = (which & 1) ? NULL : e;
+			switch (var) { case 0: bn_gcd_ext_basic(g2, d2, e2, a, b); bn_gcd_ext_basic(g, pd, pe, a, b); break; case 1: bn_gcd_ext_lehme(g2, d2, e2, a, b); bn_gcd_ext_lehme(g, pd, pe, a, b); break; case 2: bn_gcd_ext_binar(g2, d2, e2, a, b); bn_gcd_ext_binar(g, pd, pe, a, b); break; default: bn_gcd_ext_dig(g2, d2, e2, a, bd); bn_gcd_ext_dig(g, pd, pe, a, bd); break; }
+			if (bn_cmp(g, g2) != RLC_EQ) bad = 1; if (pd && bn_cmp(d, d2) != RLC_EQ) bad = 1; if (pe && bn_cmp(e, e2) != RLC_EQ) bad = 1;
+		} RLC_CATCH_ANY { th = 1; } RLC_FINALLY { }
+		_exit(th ? 35 : bad ? 34 : 0); }
+	int st = 0; waitpid(pid, &st, 0); transitions++; if (getenv("VF_DEBUG")) fprintf(stderr, "dbg null var %d which %d: signaled %d sig %d exit %d\n", var, which, WIFSIGNALED(st), WIFSIGNALED(st) ? WTERMSIG(st) : 0, WIFEXITED(st) ? WEXITSTATUS(st) : -1);
+	const char *what = which == 1 ? "e = NULL" : which == 2 ? "d = NULL" : "d = e = NULL";
+	if (WIFSIGNALED(st) || (WIFEXITED(st) && WEXITSTATUS(st) != 0 && WEXITSTATUS(st) != 35 && WEXITSTATUS(st) != 34)) vf_fail((which & 2) ? L41 : NULL, "%s with %s (documented: \"can be NULL\") dies (%s %d): null dereference", VN[var], what, WIFSIGNALED(st) ? "signal" : "sanitizer exit", WIFSIGNALED(st) ? WTERMSIG(st) : WEXITSTATUS(st));
+	else if (WEXITSTATUS(st) == 34) vf_fail(NULL, "%s with %s returns another gcd / cofactor than the call with both cofactors", VN[var], what);
+	else if (WEXITSTATUS(st) == 35) vf_stat_add("x.null_cofactor_call_raised", 1);
+}
+
 static void run_case(vf_case *c) {
 	vf_nontrivial();
 	if (!strcmp(c->op, "bnsize")) do_bnsize(c);
@@ -219,7 +244,7 @@ static void run_case(vf_case *c) {
 		else if (fam == 2) do_smul_eb(c);
 #endif
 	}
-	else if (!strcmp(c->op, "arr")) do_arr(c); else if (!strcmp(c->op, "rec")) do_rec(c); else vf_fail(NULL, "unknown op");
+	else if (!strcmp(c->op, "arr")) do_arr(c); else if (!strcmp(c->op, "rec")) do_rec(c); else if (!strcmp(c->op, "null")) do_null(c); else vf_fail(NULL, "unknown op");
 }
 
 static vf_case K;
@@ -243,6 +268,9 @@ static void edge_scalars(vf_dom *d, const mpz_t n) {
 static void enumerate(void) {
 	vf_case_init(&K);
 	mpz_t t; mpz_init(t);
+	if (vf_bound_on("null-output-parameters")) { static const long AB[][2] = {{0, 0}, {0, 5}, {5, 0}, {12, 18}, {18, 12}, {17, 1}, {1, 17}, {255, 255}, {0x7fff, 0x1234}, {35, 15}};
+		for (int var = 0; var < 4; var++) for (int which = 1; which <= 3; which++) for (unsigned i = 0; i < 10; i++) if (vf_mine()) { K.op = "null"; K.n = 4; mpz_set_si(K.v[0], var); mpz_set_si(K.v[1], which); mpz_set_si(K.v[2], AB[i][0]); mpz_set_si(K.v[3], AB[i][1]); vf_run(&K); }
+		vf_bound_done("null-output-parameters"); }
 	if (vf_bound_on("bn-size-sweep")) {
 		long cap = (long)RLC_BN_SIZE * RLC_DIG;
 		for (int fn = 0; fn < BF_LAST; fn++) {
